@@ -384,6 +384,50 @@ def bignum(F, res):
             res.add([finding("INT", key, where(f, s["line"]), "the payload of BigNInt is the plain magnitude (no `!x` / `- 1` / `+ 1` on the way): CBOR tag 3 encodes -1 - n, so every integer below -2^64 is emitted one too low")])
 
 
+def bignum_bytes(F, res):
+    """The payload of a bignum is the magnitude's big-endian bytes with the *leading* zero bytes removed - nothing else.  On the
+    way from `to_be_bytes()` to the `BoundedBytes` (helpers inlined, closures included) no adaptor may drop, reorder or
+    de-duplicate bytes by their value or position in general (`filter`, `filter_map`, `retain`, `dedup`, `rev`, `step_by`,
+    `take`, `sort`); trimming the front (`skip_while`, a slice from the first non-zero `position`, `leading_zeros`) is the one
+    accepted form.  `filter(|b| *b != 0)` removes interior zero bytes as well: 2^64 is emitted as the one byte 0x01."""
+    f0 = F.fns.get("<i128 as %sIntoData>::as_data" % P)
+    if f0 is None:
+        raise BrokenCheck("<i128 as IntoData>::as_data not found")
+
+    def want(t, callee):
+        return callee["crate"] == "tx3_cardano" and not callee.get("impl_trait") and not callee.get("trait_default") and len(callee["blocks"]) <= 80
+    _KEEP_B.append(want)
+    f = mir.inline_calls(F, f0, want=want, depth=2)
+    BAD = ("filter", "filter_map", "retain", "dedup", "dedup_by", "dedup_by_key", "rev", "step_by", "take", "sort", "sort_unstable", "reverse", "truncate", "pop", "remove", "swap_remove")
+    PASS = ("std::iter::IntoIterator::into_iter", "core::slice::<impl [T]>::iter", "std::iter::Iterator::copied", "std::iter::Iterator::cloned", "std::ops::Deref::deref",
+            "std::ops::DerefMut::deref_mut", "core::array::<impl std::iter::IntoIterator for [T; N]>::into_iter", "std::iter::Iterator::skip_while", "std::iter::Iterator::collect",
+            "std::slice::<impl [T]>::to_vec", "core::slice::<impl [T]>::to_vec", "std::iter::Iterator::map", "std::ops::Index::index")
+    key = f0["path"] + "|bignum payload = big-endian magnitude minus leading zero bytes"
+    hits = []
+    n = 0
+    from ..common import with_closures
+    for b in with_closures(F, f):
+        du = mir.DefUse(b)
+        for bi, t in mir.calls(b):
+            c = t.get("callee") or ""
+            last = c.split("::")[-1]
+            if c.endswith("::to_be_bytes") or c.endswith("::to_le_bytes"):
+                n += 1
+            if last in BAD and t["args"] and (c.startswith("std::") or c.startswith("core::") or c.startswith("alloc::")):
+                if any(o.kind == "call" and ((o.callee or "").endswith("::to_be_bytes") or (o.callee or "").endswith("::to_le_bytes")) for o in mir.provenance(b, du, t["args"][0], transparent_extra=PASS)):
+                    hits.append((b, t["line"], last))
+    if hits:
+        b, line, last = hits[0]
+        res.add([finding("INT", key, where(b, line), "the magnitude's bytes go through `%s` on their way into the bignum: bytes are dropped / reordered by value or position, not only the leading zero padding - an integer beyond 64 bits whose big-endian form has a zero byte (2^64, 10^20) is emitted as another number" % last)])
+    elif n:
+        res.add([ok("INT", key, where(f0), "no value- or position-based dropping / reordering adaptor between to_be_bytes() and the payload")])
+    else:
+        res.add([assumption("INT", key, where(f0), "no to_be_bytes() call found in the integer encoder (helpers inlined): how the magnitude becomes bytes is not decided")])
+
+
+_KEEP_B = []
+
+
 def run(ctx):
     F = ctx.F
     res = Result("C09")
@@ -405,6 +449,7 @@ def run(ctx):
     # signedness maps e.g. 2^63 ..= 2^64-1 to negative numbers)
     noreorder(F, res, reach)
     bignum(F, res)
+    bignum_bytes(F, res)
     from . import c02
     r2 = Result("C09")
     c02.casts(F, r2, {p for p in reach if p in F.fns and F.fns[p]["crate"] == "tx3_cardano"})
